@@ -19,7 +19,7 @@ RULE = (
 )
 BOUNDS = {
     "quick": "m,n<=4 (tall, square, wide, m=1); all 2^n zero-column masks x 5 entry classes; every duplicated-column pair; ranks 0..min via products",
-    "thorough": "m,n<=5, 2 fill rows",
+    "thorough": "m,n<=6, 3 fill rows",
 }
 WALL_BUDGET = {"quick": 300, "thorough": 2400}
 ASSUMPTIONS = ["clause oracle only (QR is unique up to phases): Q^H Q = I, R upper trapezoidal, A = QR to 2^10 u ||A||"]
@@ -54,8 +54,8 @@ def base_matrix(cls, m, n, fill):
 
 
 def cases(tier, seed):
-    S = 4 if tier == "quick" else 5
-    rows = 1 if tier == "quick" else 2
+    S = 4 if tier == "quick" else 6
+    rows = 1 if tier == "quick" else 3
     out = []
     for m, n in itertools.product(range(1, S + 1), repeat=2):
         for cls in CLASSES:
